@@ -570,6 +570,11 @@ theorem col_attained (w : Nat → Nat → Nat) (p t : List Nat) (j d : Nat)
   rw [h, ← ed_reverse w p.reverse, List.reverse_reverse,
     reverse_take_reverse _ _ (by omega), hlen]
 
+/-- `d` is the minimum edit distance between `p` and any substring of `t` that ends at position `j` (inclusive) -/
+def IsMinEdAt (w : Nat → Nat → Nat) (p t : List Nat) (j d : Nat) : Prop :=
+  (∀ s, s ≤ j + 1 → d ≤ ed w p ((t.take (j + 1)).drop s)) ∧
+  (∃ s, s ≤ j + 1 ∧ d = ed w p ((t.take (j + 1)).drop s))
+
 /-! ## observables built from the column -/
 
 /-- expected output of `find_all_end(text, k)`: all `(j, D[j])` with `D[j] ≤ k`, in text order -/
